@@ -43,6 +43,8 @@ STDLIB_AXIOMS = {
     "sig_forall_dec",
     "sig_not_dec",
 }
+# Print Assumptions also lists the kernel's primitive machine types when Flocq is loaded; they are not axioms of ours
+PRIMITIVES = {"PrimInt63.int", "PrimFloat.float", "Uint63.int", "int", "float"}
 
 
 def sh(cmd, timeout=1200, cwd=None, env=None, inp=None):
